@@ -185,7 +185,25 @@ func runC17(c *Ctx) {
 					break
 				}
 				ld, _ := r.Val.(ssa.Instruction)
-				if r.Op != "load" || ld == nil || !instrAfter(onceCall.Instr, ld) {
+				// after, in the order of the path (the read may sit in a helper that is walked through)
+				after := false
+				if ld != nil {
+					onceIdx := -1
+					for i := range p.Events {
+						if &p.Events[i] == onceCall || p.Events[i].Instr == onceCall.Instr {
+							onceIdx = i
+						}
+					}
+					for _, a := range p.Acc {
+						if a.Instr == ld && onceIdx >= 0 && a.NEv > onceIdx {
+							after = true
+						}
+					}
+					if instrAfter(onceCall.Instr, ld) {
+						after = true
+					}
+				}
+				if r.Op != "load" || ld == nil || !after {
 					okR, whyR = false, fmt.Sprintf("field %s is read before once.Do has returned", rf.Name())
 					break
 				}
